@@ -76,7 +76,8 @@ let () =
           | FaultA i -> let i = int_of_nat i in if i + 1 > List.length full then out "BEYOND\n" else go (i + 1)
           | RetA z -> out (Printf.sprintf "%d 0 %d\n" k (int_of_z z))
           | UnderA -> out (Printf.sprintf "%d 1 0\n" k)
-          | FuelA -> out "FUEL\n") in
+          | FuelA -> out "FUEL\n"
+          | _ -> out "NULL-OR-OVERFLOW\n") in
         go 0
       | "S" -> out (b01 (special_domain (bytes_of_hex f.(1))) ^ "\n")
       | "T" -> out (Printf.sprintf "%d\n" (int_of_z (tld_lookup table (bytes_of_hex f.(1)))))
